@@ -14,7 +14,8 @@ pub const SEG_ALPHA: [&[u8]; 24] = [
     b"a", b"b", b"x.y", b"a b", b"\xc3\xa9", b"%", b"a/b", b"*", b"!", b"~", b"a=b", b"a&b", b"?", b"#", b"\x00", b"\xff",
     b"...", b"A", b"0", b"+", b"%41", b"..a", b"a..", b"-_",
 ];
-pub const NAME_ALPHA: [&[u8]; 26] = [
+pub const NAME_ALPHA: [&[u8]; 30] = [
+    b"a ", b"x\n", b"\t", b" a",
     b"\xef\xbb\xbfbom", b"\xef\xbb\xbf",
     b"a", b"a-b", b"a1", b"a.", b"b", b"", b"A", b"a b", b"\xc3\xa9", b"x=y", b"x&y", b"%41", b"+", b"~", b"Action",
     b"X-Amz-Foo", b"a%", b"a-", b"a!", b"a~", b"aa", b"\xff", b"\x00", b"a+b",
@@ -234,6 +235,9 @@ pub struct ReqKnobs {
     pub max_pairs: usize,
     pub max_headers: usize,
     pub big_body_one_in: u64,
+    /// one form in this many (0 = never) is padded so that the merged request target lands on or
+    /// next to the longest target a URI can hold (65534 bytes; exact for the header carrier)
+    pub boundary_form_one_in: u64,
     pub forms: bool,
     /// form world (C12): mostly form bodies, URL and body sharing names, bogus charsets, bad UTF-8
     pub form_focus: bool,
@@ -329,6 +333,21 @@ pub fn gen_logical(t: &mut Tape, node: &Node, k: &ReqKnobs) -> Logical {
                 let v = gen_bytes_from(t, &NAME_ALPHA);
                 let pos = t.below(p.len() + 1);
                 p.insert(pos, (n, v));
+            }
+            if k.boundary_form_one_in > 0 && t.chance(k.boundary_form_one_in) {
+                let cpath = if segs.is_empty() {
+                    "/".to_string()
+                } else {
+                    format!("/{}{}", segs.iter().map(|s| refm::enc(s)).collect::<Vec<_>>().join("/"), if trailing { "/" } else { "" })
+                };
+                let mut all = url_pairs.clone();
+                all.extend(p.iter().cloned());
+                all.push((b"zfill".to_vec(), Vec::new()));
+                let len0 = cpath.len() + 1 + refm::rcanonq(&all).len();
+                let target = 65534 + [0i64, 1, -1, 2, -2, 3, 4, 60, -60, 1000][t.below(10)];
+                if target > len0 as i64 {
+                    p.push((b"zfill".to_vec(), vec![b'v'; (target - len0 as i64) as usize]));
+                }
             }
             let noise = t.below(6) as u64;
             body = render_form_body(&p, t, noise);
